@@ -1,2 +1,2 @@
-import NipyVerif.Model.C10C
-def main : IO Unit := NipyVerif.driverLoop NipyVerif.C10.runC
+import NipyVerif.Model.C10A
+def main : IO Unit := NipyVerif.driverLoop NipyVerif.C10.runA
